@@ -2,6 +2,7 @@ package props
 
 import (
 	"fmt"
+	"strings"
 	"sync"
 	"testing"
 
@@ -219,9 +220,13 @@ func TestC18(t *testing.T) {
 				}
 				if ch, err := wire.ParseClientHello(hm); err == nil {
 					observe(tg.Name, ch, hm)
-					if ch.SNI != nil && *ch.SNI != []string{"example.test", "www.example.test"}[k%2] {
+					wantSNI := []string{"example.test", "www.example.test"}[k%2]
+					if strings.HasSuffix(tg.Name, "+named-sni") {
+						wantSNI = "example.test" // the spec names the host itself: that name is sent, whatever the Config says
+					}
+					if ch.SNI != nil && *ch.SNI != wantSNI {
 						r.Violation(map[string]string{"kind": "stale_server_name_from_reused_spec", "target": family(tg.Name)},
-							fmt.Sprintf("%s connection %d: SNI %q on the wire, Config.ServerName is %q", tg.Name, k, *ch.SNI, []string{"example.test", "www.example.test"}[k%2]), nil)
+							fmt.Sprintf("%s connection %d: SNI %q on the wire, expected %q", tg.Name, k, *ch.SNI, wantSNI), nil)
 					}
 				}
 			}
